@@ -75,6 +75,20 @@ def edgesOfM (ds : List Doc) (cs : List Comp) : List (CId × CId) :=
         | none => [pid]
       (preds.filter fun p => (ids cs).contains p).map fun p => (p, c.id)
 
+/-- what ONE reference `r` of component `c` contributes to the predecessors of `c` in `_createCompleteGraph`: a reference
+to a placeholder expands to all instances it represents plus the producer of the current condition of the placeholder's
+document — unless `c` IS that producer (`The component which produces the condition should not have a dependency to
+itself`).  The expansion is computed for this consumer from a copy of the placeholder's entry: it is a function of the
+workflow, the consumer and the reference, never of the consumers visited before. -/
+def refPreds (ds : List Doc) (cs : List Comp) (c : Comp) (r : Ref) : List CId :=
+  let pid : CId := (r.stage.getD c.stage, r.producer)
+  match findPlaceholderM true ds cs pid with
+  | some q =>
+    match latestCond q.1 cs with
+    | some cond => if cond != c.id then q.2.represents ++ [cond] else q.2.represents
+    | none => []
+  | none => [pid]
+
 /-- `Controller._comp_get_active_predecessors(<placeholder p>)` while no component is done: the instances the
 placeholder represents and the producer of the current condition of its document (appended unless already there).
 The real code works on a deep copy of the placeholder's entry. -/
